@@ -418,7 +418,7 @@ var op64 = map[string]bool{"New": true, "Build": true, "BitmapOf": true, "Clone"
 	"RunOptimize": true, "SetCOW": true, "Detach": true, "And": true, "Or": true, "Xor": true, "AndNot": true, "AndS": true, "OrS": true,
 	"XorS": true, "AndNotS": true, "AndCard": true, "OrCard": true, "Intersects": true, "Equals": true, "FastOr": true, "FastAnd": true,
 	"ParOr": true, "FlipS": true, "Contains": true, "IsEmpty": true, "Card": true, "Min": true, "Max": true, "Rank": true, "Select": true,
-	"SelectAuto": true, "ToArray": true, "Ser64": true, "Load64": true, "ItNew": true, "ItTake": true, "ItPeek": true, "ItAdvance": true, "IterCb": true}
+	"SelectAuto": true, "ToArray": true, "Stats": true, "String": true, "Ser64": true, "Load64": true, "ItNew": true, "ItTake": true, "ItPeek": true, "ItAdvance": true, "IterCb": true}
 
 // driveBurst: accumulation histories (the same small operation repeated dozens of times on one chunk).
 func driveBurst(r *rand.Rand, w *bufio.Writer, id int, maxAtoms int, cv *coverOut) {
